@@ -569,7 +569,15 @@ class Parser:
                 continue
 
             # Parse section (assignment or block) with pending comments
-            section = self.parse_section(0, pending_comments)
+            try:
+                section = self.parse_section(0, pending_comments)
+            except RecursionError:
+                # Blocks nest by recursion: runaway depth is reported as the reader's own positioned error.
+                raise ParserError(
+                    "E_MAX_NESTING_EXCEEDED::Block nesting is too deep to read. Flatten your structure.",
+                    self.current(),
+                    "E_MAX_NESTING_EXCEEDED",
+                ) from None
             pending_comments = []  # Reset after passing to section
             if section:
                 # GH#294: Track duplicate keys at document level
